@@ -61,6 +61,9 @@ register('C12', 'TLA+ Solve spec (no artefact snapshots a parameter) model-check
 register('C18', 'TLA+ Solve spec integrality gate model-checked; nc behaviours replayed through stubbed seams with trace validation; relaxed-vs-continuous solves; TLC-enumerated views carry declared domains/bounds',
          'C18_NoSilentRelax / C18_StrictRaisesFirst are model-checked; every behaviour on a model with non-continuous variables (15 methods x strict x outcomes) is replayed and validated (strict raises before any solver entry; one warning per gate passage naming exactly the non-continuous variables); integer / binary declared through 6 routes x 12 methods relax to the continuous twin; every view enumerated by TLC over binary / integer containers carries [0, 1] / declared bounds.',
          HIST_NOTE, 'DESIGN.md 3 (C18)')
+register('C14', 'TLA+ GlobalCaches spec (two LRUs, capacity 2, name-equal leaves, parameter bypass) model-checked; every cache-operation history replayed on two same-named models with real-capacity fillers; fresh-process reference',
+         'C14_NoCrossTalk is model-checked exhaustively on GlobalCaches.tla (the as-coded instance without the parameter bypass violates it: selftest); every history of the model is replayed on two real models sharing the names p and x with different values / bounds / structure, with fillers overflowing the real capacities (1024 / 4096); each callable must read its own model\'s parameter and the final observations on M must equal those computed in a fresh interpreter process.',
+         'Trusted: TLC; the abstraction of GlobalCaches.tla (which artefacts depend on object state); the fresh-process reference run; SciPy for the two reference solves.', 'DESIGN.md 3 (C14)')
 
 ALL = ['C%02d' % i for i in range(1, 21)]
 
